@@ -328,7 +328,10 @@ func genTwin(r *rand.Rand, focus string) *TwinParams {
 				add(TwinStep{Kind: "refresh"})
 			}
 		case c < 19:
-			if focus == "sql" || focus == "plain" {
+			// (values too: inside a transaction every statement carries one write time, so a column written
+			// twice there - INSERT then UPDATE, or two UPDATEs - is decided by statement order alone, and the
+			// later value must come back in value and storage class)
+			if focus == "sql" || focus == "plain" || focus == "values" {
 				if !inTxn {
 					add(TwinStep{Kind: "begin"})
 					inTxn = true
